@@ -14,6 +14,9 @@ var poolChoice = []LeafDef{
 	{"/ch/gamma", []string{"EMPTY"}, "empty"},
 	{"/ch/gamma/y", []string{"y1", "y2"}, "string"},
 	{"/ch/delta/z", []string{"z1", "z2"}, "string"},
+	{"/ch/tun/gre", []string{"g1", "g2"}, "string"},
+	{"/ch/tun/vx", []string{"v1", "v2"}, "string"},
+	{"/ch/tun/tnote", []string{"t1", "t2"}, "string"},
 	{"/ch/alpha-beta", []string{"n1", "n2"}, "string"},
 	{"/ch/other", []string{"o1", "o2"}, "string"},
 	{"/svc[id=s1]/vlan", []string{"10", "20"}, "uint"},
@@ -39,7 +42,9 @@ type choiceDef struct {
 }
 
 var choiceDefs = []choiceDef{
-	{"top", "/ch", map[string][]string{"alpha-case": {"alpha", "alpha-c"}, "alpha-b-case": {"alpha-b"}, "gamma-case": {"gamma"}, "delta": {"delta"}}, ""},
+	{"top", "/ch", map[string][]string{"alpha-case": {"alpha", "alpha-c"}, "alpha-b-case": {"alpha-b"}, "gamma-case": {"gamma"}, "delta": {"delta"}, "tun-case": {"tun"}}, ""},
+	// a choice inside the container that is the member of case tun-case (a choice of its own container, not a nested choice)
+	{"encap", "/ch/tun", map[string][]string{"gre": {"gre"}, "vx": {"vx"}}, ""},
 	{"kind", "/svc", map[string][]string{"l2": {"vlan", "vlan-name"}, "l3": {"vrf", "ip4", "ip6"}}, ""},
 	{"addr", "/svc", map[string][]string{"v4": {"ip4"}, "v6": {"ip6"}}, "kind/l3"},
 }
